@@ -131,6 +131,7 @@ func cmdDump(args []string) int {
 	}
 	td := time.Now()
 	dischargeAll(items, *timeout, 16)
+	items = expandFailed(items, *timeout)
 	fmt.Fprintf(os.Stderr, "discharged in %.1fs\n", time.Since(td).Seconds())
 	sort.SliceStable(items, func(i, j int) bool { return items[i].o.Fn < items[j].o.Fn })
 	bad := 0
